@@ -172,6 +172,26 @@ OSSL_TRAD = {'aes128-cbc': '-aes-128-cbc', 'aes192-cbc': '-aes-192-cbc',
              'aes256-cbc': '-aes-256-cbc', 'des-cbc': '-des-cbc',
              'des3-cbc': '-des-ede3-cbc'}
 LEGACY = ['-provider', 'legacy', '-provider', 'default']
+# encryption schemes the other readers are built with (probed once on the
+# unmodified tree; anything else is simply not handed to that reader)
+_MODERN = {(c, h, 2) for c in ('aes128-cbc', 'aes192-cbc', 'aes256-cbc',
+                               'des3-cbc')
+           for h in ('sha1', 'sha224', 'sha256', 'sha384', 'sha512')}
+PYCA_ENC = {'pkcs8': _MODERN | {('des-cbc', 'md5', 1), ('des3-cbc', 'sha1', 1),
+                                ('rc4-128', 'sha1', 1)},
+            'pkcs1': {'aes128-cbc', 'aes256-cbc', 'des3-cbc'}}
+KEYGEN_ENC = {'pkcs8': _MODERN | {('des2-cbc', 'sha1', 1),
+                                  ('des3-cbc', 'sha1', 1)},
+              'pkcs1': {'aes128-cbc', 'aes192-cbc', 'aes256-cbc',
+                        'des3-cbc'}}
+
+
+def reader_knows(table, fmt, enc):
+    if enc is None:
+        return True
+    if fmt.startswith('pkcs1'):
+        return enc[0] in table['pkcs1']
+    return tuple(enc) in table['pkcs8']
 
 PASSPHRASES = {
     'empty': '', 'ascii': 'correct horse', 'unicode': 'pässwörd€',
@@ -755,7 +775,8 @@ def eval_priv(ctx, spec, key, fmt, enc, pwname, citem):
         # OpenSSH reads comments as C strings: only benign ones go to tools
         return
     if spec not in SK and (fmt != 'openssh' or spec in PYCA_SSH_TYPES) and \
-            not (enc is not None and pw == ''):
+            not (enc is not None and pw == '') and \
+            reader_knows(PYCA_ENC, fmt, enc):
         v = guarded(ctx, 'pyca', t_pyca_priv, key, fmt, enc, pw, want, data,
                     label)
         if v is not None:
@@ -769,6 +790,7 @@ def eval_priv(ctx, spec, key, fmt, enc, pwname, citem):
     if KEYGEN and spec in KEYGEN_TYPES and not fmt.endswith('der') and \
             not (spec == 'ed25519' and fmt != 'openssh') and \
             not (enc is not None and pw == '') and \
+            reader_knows(KEYGEN_ENC, fmt, enc) and \
             ctx.rng.random() < ctx.case.get('p_keygen', 1.0):
         v = guarded(ctx, 'keygen', t_keygen_priv, key, fmt, enc, pw, want,
                     data, label)
@@ -1842,6 +1864,8 @@ def _multi_pair(ctx, item, label):
                 f'{label}: {[(k.get_algorithm(), k.has_cert) for k in kps]}')
         return
     # the pair must actually sign for the certified key
+    if spec in SK:
+        return
     msg = os.urandom(32)
     for kp in kps:
         sig = kp.sign(msg)
@@ -1991,6 +2015,8 @@ def rand_multi(rng):
                                                        'pkcs1-der')
                         and rng.random() < 0.6)
             elems.append([spec, fmt, crypt, bcomment()])
+        if not elems:
+            elems = [['ed25519', 'openssh', 0, 'only one']]
         return dict(kind='priv', pw=pw, elems=elems, seps=seps)
     if kind == 'pub':
         der = rng.random() < 0.2
@@ -2006,6 +2032,8 @@ def rand_multi(rng):
             elems.append([spec, rng.choice(fmts), bcomment()])
         if rng.random() < 0.3:
             elems = [[s, 'openssh', c] for s, _, c in elems]
+        if not elems:
+            elems = [['ed25519', 'openssh', 'only one']]
         return dict(kind='pub', elems=elems, seps=seps)
     if kind == 'certs':
         elems = [[spec, rng.choice(['user', 'host']),
@@ -2036,12 +2064,12 @@ def gen_cases(tier, seed):
     ptool = 0.5 if quick else 1.0
     for spec in SPECS:
         # random walks over the private export grid
-        reps = (3 if spec in slow else 6) * (1 if quick else 3)
+        reps = (4 if spec in slow else 10) * (1 if quick else 3)
         for _ in range(reps):
             n = 6 if spec in slow else 14
             add('priv', spec=spec, p_openssl=ptool, p_keygen=ptool,
                 items=[pick_priv(rng, sup) for _ in range(n)])
-        for _ in range(2 if quick else 6):
+        for _ in range(3 if quick else 6):
             items = []
             for fmt in PUB_FORMATS:
                 for _ in range(5):
@@ -2094,7 +2122,7 @@ def gen_cases(tier, seed):
                                            BENIGN_COMMENTS]])
 
     for kind2 in PYCA_KINDS:
-        for _ in range(2 if quick else 8):
+        for _ in range(3 if quick else 8):
             items = [[f, e, c] for f in ('pkcs8', 'trad', 'openssh')
                      for e in ('pem', 'der') for c in (0, 1)]
             add('in_pyca', kind2=kind2, items=items,
@@ -2106,7 +2134,7 @@ def gen_cases(tier, seed):
                                                 'quote'])]
                        for f, e in pick])
 
-    for _ in range(16 if quick else 80):
+    for _ in range(24 if quick else 80):
         items = []
         for _ in range(3):
             kt, bits = rng.choice(KEYGEN_KINDS)
@@ -2117,11 +2145,11 @@ def gen_cases(tier, seed):
                                       'user@host.example.com'])])
         add('in_keygen', items=items)
 
-    for _ in range(40 if quick else 300):
+    for _ in range(70 if quick else 300):
         add('cert', items=[rand_cert_params(
             rng, rng.choice(['keygen', 'asyncssh'])) for _ in range(8)])
 
-    for _ in range(30 if quick else 250):
+    for _ in range(60 if quick else 250):
         add('multi', items=[rand_multi(rng) for _ in range(6)])
     return cases
 
